@@ -276,6 +276,7 @@ type Chain struct {
 	WholeApply   bool // apply each transaction through ApplyTransactions instead of ApplyTransaction
 	OracleOnly   bool // after the first DEX operation: real code + oracles only, no comparison with the ledger model
 	DexBatched   bool // a counter-chain DEX batch was handled (qualifies oracle signatures)
+	EthTraffic   bool // RLP.V2 (Ethereum-signed) transactions were applied (qualifies oracle signatures)
 }
 
 func ErrStr(err lib.ErrorI) string {
